@@ -516,6 +516,9 @@ func (self *Interpreter) indexExpression(node ast.AnalyzedIndexExpression) (*val
 	if i != nil {
 		return nil, i
 	}
+	// the base is read when it is evaluated: the index expression may assign to the variable it came from
+	// (the elements of a list stay shared, only the reference to the list is held fast)
+	baseNow := *base
 
 	index, i := self.expression(node.Index)
 	if i != nil {
@@ -526,7 +529,7 @@ func (self *Interpreter) indexExpression(node ast.AnalyzedIndexExpression) (*val
 		return node.Span()
 	}
 
-	return value.IndexValue(base, index, span)
+	return value.IndexValue(&baseNow, index, span)
 }
 
 //
